@@ -98,7 +98,7 @@ def element_language(soup, el):
     if head is None:
         return None
     for m in head.contents:
-        if isinstance(m, bs4.Tag) and nm(m) == 'meta':
+        if isinstance(m, bs4.Tag) and nm(m) == 'meta' and html_el(m):     # the pragma is an HTML element (fix: foreign <x:meta> ignored)
             decl, content = False, None
             for k, v in m.attrs.items():
                 if k.lower() == 'http-equiv' and isinstance(v, str) and v.lower() == 'content-language':
@@ -143,7 +143,9 @@ def lang_docs(rng, n):
         if rng.random() < 0.5:
             m = [('http-equiv', rng.choice(['content-language', 'Content-Language', 'x'])), ('content', rng.choice(langs))]
             rng.shuffle(m)
-            head_kids.append(('e', 'meta', None, None, m, []))
+            # now and then a <meta> of a foreign namespace: not the HTML pragma
+            mns = gen.SVG if (kind != 'html' and rng.random() < 0.25) else None
+            head_kids.append(('e', 'meta', None, mns, m, []))
         if rng.random() < 0.2:
             head_kids.append(('e', 'meta', None, None, [('http-equiv', 'content-language'), ('content', 'de')], []))
         html_attrs = [('lang', rng.choice(langs))] if rng.random() < 0.25 else []
